@@ -2199,3 +2199,12 @@ Theorem top_k_def (argsort : list Q -> list nat) (argpartition : list Q -> nat -
 Theorem top_k_unsorted_refuted :
   exists scores k, (length scores <= k)%nat /\ forall argsort argpartition, top_k argsort argpartition scores k false = Err.
 Proof. exists [1; 3; 2], 3%nat. split; [simpl; lia | reflexivity]. Qed.
+
+Theorem top_k_returns argsort argpartition scores k sort :
+  sort = true \/ (k < length scores)%nat -> exists idx, top_k argsort argpartition scores k sort = Ok idx.
+Proof.
+  intros [->|H]; unfold top_k.
+  - destruct (Nat.leb (length scores) k); eexists; reflexivity.
+  - replace (Nat.leb (length scores) k) with false by (symmetry; apply Nat.leb_gt; exact H).
+    destruct sort; eexists; reflexivity.
+Qed.
